@@ -431,3 +431,195 @@ def c04(tier):
 
 
 CHECKS.update({"C03": c03, "C04": c04, "C05": c05, "C06": c06, "C07": c07, "C15": c15})
+
+
+# ------------------------------------------------------------- C14 C17 C18
+
+def parts_adjudicate(prop, wd, recs, name):
+    for k, r in enumerate(recs):
+        r["id"] = k + 1
+    verdicts, res = tlc_records(wd, "CF_Parts", recs, name)
+    bad = []
+    trails = collections.Counter()
+    drift = 0
+    for rid, v in verdicts.items():
+        trails[" > ".join(t for t in v["trail"] if t not in ("DRIFT", "conforms"))] += 1
+        if "DRIFT" in v["trail"]:
+            drift += 1
+        if v["verdict"] != "ok":
+            bad.append((recs[rid - 1], v))
+    return bad, trails, drift, res
+
+
+def c14(tier):
+    t0 = time.time()
+    wd = core.workdir("C14")
+    cfgs = ["std", "std+compact", "compact", "none"] if tier == "quick" else core.ALL_CONFIGS
+    recs = []
+    per_cfg = {}
+    for cfg in cfgs:
+        bindir = core.build_harness(cfg, bins=["run_parts"])
+        outp = os.path.join(wd, "tables-%s.ndjson" % cfg.replace("+", "_"))
+        core.run([os.path.join(bindir, "run_parts"), "--mode", "tables", "--out", outp], timeout=300)
+        got = core.read_ndjson(outp)
+        per_cfg[cfg] = len(got)
+        # completeness: the set of (name, index) each configuration must provide
+        names = collections.Counter(r["name"] for r in got)
+        if "compact" in cfg:
+            want = {"b_small": 10, "b_small_exp": 10, "b_small_int": 10, "b_large": 66, "b_large_exp": 66, "b_step": 1,
+                    "b_bias": 1, "b_small_len": 1, "b_large_len": 1, "b_small_int_len": 1}
+            if "std" not in cfg:
+                want.update({"libm_powf": 11, "libm_powd": 23})
+        else:
+            want = {"p5_hi": 651, "p5_lo": 651, "p5_min": 1, "p5_max": 1, "p5_len": 1, "int_pow5": 28, "int_pow10": 20,
+                    "f32_pow10": 11, "f64_pow10": 23, "large_pow5": 1, "large_pow5_step": 1}
+        want.update({"fn_f32_pow10": 11, "fn_f64_pow10": 23, "fn_int_pow5": 28, "fn_int_pow10": 20})
+        if dict(names) != want:
+            raise core.ToolError("table dump of %s incomplete: %s vs %s" % (cfg, dict(names), want))
+        recs += got
+    # MC part: every datum of the specification's data module against its definition
+    mc = core.tlc(os.path.join(core.SPEC, "mc", "MC_Tables.tla"), os.path.join(core.SPEC, "mc", "MC_Tables.cfg"),
+                  "C14-mc", coverage=False, cont=False, timeout=600)
+    if mc.errors or mc.distinct == 0:
+        raise core.ToolError("MC_Tables failed: %s" % mc.errors[:3])
+    bad, trails, _, res = parts_adjudicate("C14", wd, recs, "C14")
+    violations = [core.write_replay("C14", {"property": "C14", "datum": r, "verdict": v}) for (r, v) in bad]
+    cov = {
+        "states": res.distinct + mc.distinct, "transitions": res.generated + mc.generated,
+        "traces_validated_against_impl": len(recs), "evaluations": len(recs),
+        "distinct_nontrivial": len({(r["cfg"], r["name"], r["index"]) for r in recs}),
+        "rule": "every power constant reachable in each configuration (tables, Bellerophon significands + exponents, on-demand "
+                "u64::pow through the hook, pow_fast_path via table / std powf / bundled libm) is dumped and compared by TLC with "
+                "Tables.tla, whose data module is itself proved against the definitions by MC_Tables (multiplication only)",
+        "samples": [recs[0], recs[len(recs) // 2], recs[-1]],
+        "per_config": per_cfg, "spec_trails": dict(trails), "mc_tables_states": mc.distinct,
+        "configs": cfgs, "tlc_cmd": res.cmd, "exhaustive": True,
+    }
+    core.write_evidence("C14", tier, "model_checking", cov, time.time() - t0, len(violations),
+                        assumptions=["finite and complete per configuration; definitions are those of etc/*.py restated in Tables.tla"])
+    core.finish("C14", violations, [])
+
+
+def field_patterns(F, rng, tier):
+    q = tier == "quick"
+    out = []
+    fields = list(range(0, F.emaxfield + 1))
+    if q:
+        fields = sorted({0, 1, 2, F.emaxfield, F.emaxfield - 1, F.bias} | set(rng.sample(fields, 120 if F.name == "f64" else 90)))
+    for ef in fields:
+        fr = gen.sig_patterns(F, rng, 4 if q else 32) + [1 << k for k in range(0, F.mbits, 3 if q else 1)]
+        for f in (rng.sample(fr, 6) if q and ef not in (0, 1, F.emaxfield, F.emaxfield - 1) else fr):
+            for sign in (0, 1):
+                bits = (sign << (F.mbits + F.ebits)) | (ef << F.mbits) | f
+                out.append({"t": "field", "fmt": F.name, "bits": core.limbs(bits), "tag": "field"})
+            out.append({"t": "pack", "fmt": F.name, "ef": ef, "frac": core.limbs(f), "tag": "pack"})
+    return out
+
+
+def run_parts(wd, mode, inputs, cfg, name):
+    bindir = core.build_harness(cfg, bins=["run_parts"])
+    outp = os.path.join(wd, name + "-out.ndjson")
+    cmd = [os.path.join(bindir, "run_parts"), "--mode", mode, "--out", outp]
+    if inputs is not None:
+        inp = os.path.join(wd, name + "-in.ndjson")
+        core.write_ndjson(inp, [{k: v for k, v in r.items() if k != "tag"} for r in inputs])
+        cmd += ["--in", inp]
+    core.run(cmd, timeout=900)
+    return core.read_ndjson(outp)
+
+
+def mc_run(module, cfgname, name, timeout=1200):
+    mc = core.tlc(os.path.join(core.SPEC, "mc", module + ".tla"), os.path.join(core.SPEC, "mc", cfgname + ".cfg"),
+                  name, coverage=False, cont=False, timeout=timeout)
+    if mc.errors or mc.distinct == 0:
+        raise core.ToolError("%s failed: %s (see work/tlc-%s.log)" % (module, mc.errors[:3], name))
+    return mc
+
+
+def c17(tier):
+    t0 = time.time()
+    wd = core.workdir("C17")
+    inputs = field_patterns(gen.F64, gen.rng_for("C17f64"), tier) + field_patterns(gen.F32, gen.rng_for("C17f32"), tier)
+    recs = run_parts(wd, "fields", inputs, "std", "fields")
+    if tier != "quick":
+        recs += run_parts(wd, "fields", inputs, "compact", "fields-compact")
+    mc = mc_run("MC_Fields", "MC_Fields", "C17-mc")
+    bad, trails, _, res = parts_adjudicate("C17", wd, recs, "C17")
+    violations = [core.write_replay("C17", {"property": "C17", "record": r, "verdict": v}) for (r, v) in bad]
+    cov = {
+        "states": res.distinct + mc.distinct, "transitions": res.generated + mc.generated,
+        "traces_validated_against_impl": len(recs), "evaluations": len(recs),
+        "distinct_nontrivial": len({(r["fmt"], str(r.get("bits", [r.get("ef"), r.get("frac")]))) for r in recs}),
+        "rule": "bit patterns = every (sampled in quick) exponent field incl. inf/NaN x both signs x fractions {0,1,2,max,max-1,"
+                "alternating,half,2^k,random}; helper results (is_denormal, exponent, mantissa, to_bits/from_bits, b, b+h) and "
+                "extended_to_float on (exponent field, fraction) pairs compared by TLC with IEEE!Decode / Encode; MC_Fields checks "
+                "the model's decode/encode/b/b+h on ALL bit patterns of the 8-bit and 16-bit formats",
+        "samples": [recs[0], recs[len(recs) // 2], recs[-1]],
+        "spec_trails": dict(trails), "mc_fields_states": mc.distinct, "tlc_cmd": res.cmd, "exhaustive": False,
+    }
+    core.write_evidence("C17", tier, "model_checking", cov, time.time() - t0, len(violations),
+                        assumptions=["2^32 / 2^64 patterns are not enumerated through TLC; every exponent field is"])
+    core.finish("C17", violations, [])
+
+
+def round_inputs(F, rng, tier):
+    q = tier == "quick"
+    hi = 2100 if F.name == "f64" else 320
+    exps = list(range(-63, hi + 1))
+    if q:
+        special = {-63, -62, -1, 0, 1, 64 - F.mbits - 2, 64 - F.mbits - 1, -(64 - F.mbits - 1), -(64 - F.mbits - 1) + 1,
+                   -(64 - F.mbits - 1) - 1, F.emaxfield - 2, F.emaxfield - 1, F.emaxfield, F.emaxfield + 1, hi}
+        exps = sorted(special | set(range(-63, 70, 3)) | set(rng.sample(exps, 60)))
+    ms = 64 - F.mbits - 1
+    out = []
+    for e in exps:
+        s = (-e + 1) if -e >= ms else ms
+        s = min(s, 64)
+        keptbits = 64 - s
+        truncs = sorted({0, 1, (1 << (s - 1)) - 1, 1 << (s - 1), (1 << (s - 1)) + 1, (1 << s) - 1}) if s > 0 else [0]
+        if keptbits == 0:
+            kepts = [0]
+        else:
+            top = 1 << (keptbits - 1)
+            kepts = sorted({(1 << keptbits) - 1, top | 1, top, top | (rng.getrandbits(keptbits) & ~1), top | rng.getrandbits(keptbits) | 1})
+        for k in kepts:
+            for t in truncs:
+                mant = (k << s) | t if s < 64 else t
+                if mant >> 63 != 1:
+                    continue
+                for variant in ("nearest", "down"):
+                    out.append({"t": "round", "fmt": F.name, "mant": core.limbs(mant), "exp": e, "variant": variant,
+                                "tag": "round"})
+    return out
+
+
+def c18(tier):
+    t0 = time.time()
+    wd = core.workdir("C18")
+    inputs = round_inputs(gen.F64, gen.rng_for("C18f64"), tier) + round_inputs(gen.F32, gen.rng_for("C18f32"), tier)
+    recs = run_parts(wd, "round", inputs, "std", "round")
+    masks = run_parts(wd, "masks", None, "std", "masks")
+    if tier != "quick":
+        recs += run_parts(wd, "round", inputs, "std+compact", "round-compact")
+    mc = mc_run("MC_Round", "MC_Round" if tier == "quick" else "MC_Round_full", "C18-mc", timeout=3000)
+    bad, trails, drift, res = parts_adjudicate("C18", wd, recs + masks, "C18")
+    violations = [core.write_replay("C18", {"property": "C18", "record": r, "verdict": v}) for (r, v) in bad]
+    cov = {
+        "states": res.distinct + mc.distinct, "transitions": res.generated + mc.generated,
+        "traces_validated_against_impl": len(recs) + len(masks), "evaluations": len(recs) + len(masks),
+        "distinct_nontrivial": len({(r["fmt"], str(r["mant"]), r["exp"], r["variant"]) for r in recs}),
+        "rule": "biased exponents in [-63, 2100] (f64) / [-63, 320] (f32) (all in thorough) x significands built per shift: kept bits "
+                "{all ones, odd, even, random} x truncated bits {0, 1, half-1, half, half+1, all ones}; nearest-even result must be "
+                "the oracle's nearest float of mant*2^(exp-bias); truncating result the largest float not above it (below the "
+                "overflow threshold, the callers' domain); mask helpers for n = 0..64; MC_Round checks the model's Round against "
+                "the constructive RN on a small format",
+        "samples": [recs[0], recs[len(recs) // 2], recs[-1], masks[7]],
+        "spec_trails": dict(trails), "model_vs_impl_drift": drift, "mc_round_states": mc.distinct,
+        "tlc_cmd": res.cmd, "exhaustive": False,
+    }
+    core.write_evidence("C18", tier, "model_checking", cov, time.time() - t0, len(violations),
+                        assumptions=["truncating variant judged only below 2^(emax+1) (range the callers guarantee)"])
+    core.finish("C18", violations, [])
+
+
+CHECKS.update({"C14": c14, "C17": c17, "C18": c18})
